@@ -44,7 +44,9 @@ def gen_request(r, i):
     elif k < 0.82:
         content = gen_docs.edge_doc(doc_r)
     else:
-        content = r.choice(["Hi **Markdown**", "a\r\nb\r\n", "x", "~~s~~ https://e.x | a\n-|-\n1|2\n", "é 😀 <b>&amp;</b>", " lead", "\n\n# t\n",
+        content = r.choice(["Hi **Markdown**", "a\r\nb\r\n", "x",
+                            # content whose first character means something to an argument parser, a shell or a path
+                            "@alice thanks for the *patch*", "@", "@opts.txt", "+x", "=a", "/etc/hosts", "~ home", "%s %d", "$HOME {x}", "!bang", "#hash", "*.md", "\"quoted\"", "'q'", "?", "x -m y", "a --escape b", "~~s~~ https://e.x | a\n-|-\n1|2\n", "é 😀 <b>&amp;</b>", " lead", "\n\n# t\n",
                             # non-empty content that is white space only, of the narrow and of the wide kind
                             " ", "\t\n", "\u00a0", "\u3000\n", "\u2003 \u2003", "\x0c", "\u2028", "\x1c\x1d", " \n \n", "\ufeff", "\x0b\n\x0b"])
     content = content.replace("\x00", "")
